@@ -255,7 +255,15 @@ func heapTypeKey(t types.Type) string {
 	if a, ok := t.(*types.Alias); ok {
 		return heapTypeKey(types.Unalias(a))
 	}
-	return types.TypeString(t, func(p *types.Package) string { return p.Name() })
+	// qualified by package PATH: two imported packages may share a name (bucketteer / deprecated/bucketteer)
+	return types.TypeString(t, func(p *types.Package) string {
+		path := p.Path()
+		path = strings.TrimPrefix(path, repoMod+"/")
+		if path == repoMod {
+			path = "main"
+		}
+		return path
+	})
 }
 
 // bumpAlloc: a callee may have allocated; the allocation counter only grows.
@@ -459,6 +467,11 @@ func (u *Unit) entryOr(st *State) *State {
 
 func (u *Unit) readGlobal(st *State, v *types.Var) Term {
 	name := "gv_" + sanitize(v.Pkg().Name()) + "_" + sanitize(v.Name())
+	if v.Pkg().Path() == "github.com/ipfs/go-cid" && v.Name() == "Undef" {
+		// go-cid: var Undef = Cid{} (never assigned by the repository): the zero value
+		z := u.zeroOf(v.Type())
+		return z
+	}
 	if v.Pkg().Path() == "io" && v.Name() == "Discard" {
 		u.c.declareFun("gv_io_Discard", "() Int")
 		u.c.declareRaw("nonnil_io_Discard", "(assert (and (> gv_io_Discard 0) (< gv_io_Discard alloc@0)))")
